@@ -72,6 +72,44 @@ theorem caList_is_cell_allocation (inCA : Nat → Bool) :
   · subst h0; right; simp only [h1, if_true, List.mem_singleton]
   · left; exact ⟨by omega, h1⟩
 
+/-- "ARFCN 0 last" (TS 44.018 10.5.2.21), as a statement about the selection: when ARFCN 0 belongs to the
+cell allocation it is the LAST entry of the cell allocation frequency list, so it hops exactly when the
+bit MA C n of the last position n = |CA| is set (for 64 channels and 8 octets: the MSB of the first octet),
+whatever the other channels and bits are. -/
+theorem arfcn0_last (inCA : Nat → Bool) (ma : List Nat) (h0 : inCA 0 = true) :
+    (caList inCA)[(caList inCA).length - 1]? = some 0 ∧
+    (0 ∈ select inCA ma ↔ maC ma (caList inCA).length = true) := by
+  have hca : caList inCA = (List.range' 1 1023).filter inCA ++ [0] := by
+    simp only [caList, h0, if_true]
+  have hnot : ∀ k : Nat, ((List.range' 1 1023).filter inCA)[k]? ≠ some 0 := by
+    intro k hk
+    have := List.mem_of_getElem? hk
+    simp only [List.mem_filter, List.mem_range'_1] at this
+    omega
+  have hlen : (caList inCA).length = ((List.range' 1 1023).filter inCA).length + 1 := by
+    rw [hca, List.length_append, List.length_singleton]
+  have hlast : (caList inCA)[(caList inCA).length - 1]? = some 0 := by
+    rw [hlen, hca, Nat.add_sub_cancel, List.getElem?_append_right (Nat.le_refl _), Nat.sub_self]
+    rfl
+  refine ⟨hlast, ?_⟩
+  rw [selected_iff]
+  constructor
+  · rintro ⟨i, hi, hget, hbit⟩
+    have : i = (caList inCA).length := by
+      rw [hca] at hget
+      by_cases hlt : i - 1 < ((List.range' 1 1023).filter inCA).length
+      · rw [List.getElem?_append_left hlt] at hget
+        exact absurd hget (hnot _)
+      · have hge : ((List.range' 1 1023).filter inCA).length ≤ i - 1 := by omega
+        rw [List.getElem?_append_right hge] at hget
+        generalize hk : i - 1 - ((List.range' 1 1023).filter inCA).length = k at hget
+        cases k with
+        | zero => omega
+        | succ m => simp at hget
+    rw [← this]; exact hbit
+  · intro hbit
+    exact ⟨(caList inCA).length, by omega, hlast, hbit⟩
+
 /-- **The `freq[].mask` update** (same hypotheses): without `si4` no mask changes; with `si4`
 FREQ_TYPE_HOPP is cleared everywhere and set exactly on the decoded channels, all other bits
 keep their value. -/
